@@ -37,6 +37,10 @@ def workload(model, proto, rng, finite, align):
         delta = rng.randint(0, 48)
         pad_len = sw.BUF - hdr_len(schema) - 3 - delta
     vals = sw.gen_values(env, ns, proto, rng, finite=finite, items=(2, 7), pad_len=pad_len)
+    er = rng.fork("empty")
+    for k_, (_, _, st_) in enumerate(proto.steps):
+        if st_ and er.chance(0.2):
+            vals[k_] = []            # an empty stream between others (end marker right after the previous stream's)
     if align and rng.chance(0.5):
         # a second refill further on: lengthen one stream step so that the stream spans several staging buffers
         sidx = [k for k, (_, _, s) in enumerate(proto.steps) if s]
@@ -274,6 +278,9 @@ def cpp_side(model, cm, proto, rng, quick, stats, viols, ctx):
     steps = cm.protos[proto.name]
     stream_idx = [k for k, s in enumerate(steps) if s["stream"]]
     inputs, runs, meta = [], [], []
+    # C++ writes dates and times through the stubbed date.h: values of those types are not compared after a C++ NDJSON hop
+    from streamworld import roundtrip as RT_
+    has_times = RT_.uses_prim(env, model.pkg, proto, M.TIME_PRIMS)
     for rep in range(3 if quick else 8):
         r = rng.fork("cpp", rep)
         vals = workload(model, proto, r, finite=True, align=r.chance(0.6))
@@ -310,6 +317,23 @@ def cpp_side(model, cm, proto, rng, quick, stats, viols, ctx):
             script = build_script(r.fork("script", h), steps, vals, "binary")
             runs.append({"proto": proto.name, "op": "script", "input": ii, "script": script})
             meta.append(("script", vals, parts, flat, script))
+        if (rep <= 1 or not quick) and not has_times:
+            # NDJSON written by the C++ writer itself from the binary stream: whatever it chose to write, the C++ reader has to
+            # give back the items that went in - under every read history (ground truth = the values, not another history)
+            w0 = cm.run_plan([data], [{"proto": proto.name, "op": "relay", "in_fmt": "binary", "out_fmt": "ndjson", "input": 0, "batch": [1] * nb}], timeout=120)[0]
+            if w0 is not None and not w0.get("crashed") and w0.get("ok"):
+                inputs.append(bytes.fromhex(w0["out"]))
+                kk = len(inputs) - 1
+                for c in ([1] + r.sample([2, 3, 7, 64], 2)):
+                    runs.append({"proto": proto.name, "op": "relay", "in_fmt": "ndjson", "out_fmt": "binary", "input": kk, "batch": [c] * nb,
+                                 "chunk_mode": r.choice([0, 0, 3]), "chunk_seed": r.randint(1, 1 << 30)})
+                    meta.append(("cppnd_relay", vals, parts, flat, runs[-1]["batch"]))
+                for h in range(2 if quick else 4):
+                    script = build_script(r.fork("cppndscript", h), steps, vals, "ndjson", plain=(h == 0))
+                    runs.append({"proto": proto.name, "op": "script", "input": kk, "script": script})
+                    meta.append(("cppnd_script", vals, parts, flat, script))
+            else:
+                stats["cpp_cannot_write_ndjson(skipped; C02)"] = stats.get("cpp_cannot_write_ndjson(skipped; C02)", 0) + 1
         if rep == 0 or not quick:
             # the NDJSON reader (generated from_json, look-ahead line reader).  What the JSON text of a value is belongs
             # to C02; here the same NDJSON document is read by different histories - one item at a time into a fresh
@@ -372,12 +396,12 @@ def cpp_side(model, cm, proto, rng, quick, stats, viols, ctx):
             continue
         try:
             v2, p2, _ = codec.decode_stream(proto, ns, bytes.fromhex(res["out"]), schema)
-            why = sw.flat_equal(env, ns, proto, flat, sw.flat_values(proto, v2))
+            why = sw.flat_equal(env, ns, proto, flat, sw.flat_values(proto, v2), kind.startswith("cppnd"))
         except (R.Truncated, R.Malformed) as e:
             why = "emitted stream does not decode: %r" % (e,)
         if why:
             cls = "items_depend_on_read_batching" if kind.endswith("relay") else "items_depend_on_call_history"
-            viols.append(({"class": cls, "lang": "cpp", "format": "ndjson" if kind.startswith("ndjson") else "binary"}, doc(model, proto, vals, parts, ctx, "cpp_" + kind, why, how=how)))
+            viols.append(({"class": cls, "lang": "cpp", "format": "ndjson" if (kind.startswith("ndjson") or kind.startswith("cppnd")) else "binary"}, doc(model, proto, vals, parts, ctx, "cpp_" + kind, why, how=how)))
 
 
 def doc(model, proto, vals, parts, ctx, pipeline, detail, how=None, hist_seed=None):
@@ -484,7 +508,17 @@ def replay_doc(doc_, ybin, root):
                 why = "" if out == base else "NDJSON lines differ from the one-call-per-step baseline"
             return bool(why), why
         cm = C.CppModel(model.dir)
-        if doc_["pipeline"].startswith("cpp_ndjson"):
+        if doc_["pipeline"].startswith("cpp_cppnd"):
+            # NDJSON written by the C++ writer from the binary stream, read back under the recorded history
+            nb_ = cm.copyto[proto.name]
+            w0 = cm.run_plan([data], [{"proto": proto.name, "op": "relay", "in_fmt": "binary", "out_fmt": "ndjson", "input": 0, "batch": [1] * nb_}])[0]
+            raw = bytes.fromhex(w0["out"])
+            if doc_["pipeline"] == "cpp_cppnd_relay":
+                run = {"proto": proto.name, "op": "relay", "in_fmt": "ndjson", "out_fmt": "binary", "input": 0, "batch": doc_["how"]}
+            else:
+                run = {"proto": proto.name, "op": "script", "input": 0, "script": doc_["how"]}
+            res = cm.run_plan([raw], [run])[0]
+        elif doc_["pipeline"].startswith("cpp_ndjson"):
             # same NDJSON document, baseline history (fresh variable per item) against the recorded history
             raw = codec.encode_ndjson(proto, ns, schema, vals).encode("utf-8")
             base = build_script(M.derive(1, "replay"), cm.protos[proto.name], vals, "ndjson", plain=True)
@@ -526,7 +560,7 @@ def main():
                stubbed="C++: nd-array header (cpp.overrideArrayHeader) and date/date.h are verification stubs; harness main emitted from the generated protocols.h",
                assumptions=["reference codec per docs/reference, with int8/uint8 as one raw byte"],
                replay_fn=replay_doc, quick_budget=150,
-               fault_keys=("value_straddles_refill", "empty_write_call", "generator_path", "list_path", "tuple_path", "sized_iterable_path(deque, dict view)", "one_shot_iterator_path(iter, map)", "numpy_array_as_iterable", "block_end_on_buffer_boundary", "cpp_relay", "cpp_script", "cpp_ndjson_relay", "cpp_ndjson_script", "py_write_histories"))
+               fault_keys=("value_straddles_refill", "empty_write_call", "generator_path", "list_path", "tuple_path", "sized_iterable_path(deque, dict view)", "one_shot_iterator_path(iter, map)", "numpy_array_as_iterable", "block_end_on_buffer_boundary", "cpp_relay", "cpp_script", "cpp_ndjson_relay", "cpp_ndjson_script", "cpp_cppnd_relay", "cpp_cppnd_script", "py_write_histories"))
 
 
 if __name__ == "__main__":
